@@ -91,6 +91,16 @@ func (m *DHCPMon) LeaseOf(client string) (netip.Addr, bool) {
 	return a, ok
 }
 
+// HeldLeases lists (client, address) of the generous (C11) shadow: bindings that are certainly still in force.
+func (m *DHCPMon) HeldLeases() map[string]netip.Addr {
+	m.expire()
+	out := map[string]netip.Addr{}
+	for a, b := range m.held {
+		out[b.client] = a
+	}
+	return out
+}
+
 // Leases lists (client, address) of the conservative shadow.
 func (m *DHCPMon) Leases() map[string]netip.Addr {
 	m.expire()
@@ -221,6 +231,11 @@ func (m *DHCPMon) Reply(rep refdec.DHCPMsg, tracked func(netip.Addr) (refdec.MAC
 		// C11 shadow ends generously on a NAK; the C12 "current lease" does not: a NAK that refuses a request for some
 		// other address leaves the server's binding of the leased address intact (DESIGN Corrections)
 		m.dropAllHeld(client)
+		// ... unless the refused request named the leased address itself: then the lease is gone
+		if a, ok := m.leaseA[client]; ok && a == r.reqIP {
+			delete(m.lease, client)
+			delete(m.leaseA, client)
+		}
 		return
 	}
 	a := rep.YI
